@@ -6,7 +6,7 @@ FAMILIES = {
     "C15": ("f4_trie", None),
     "C16": ("f5_annot", None),
     "C01": ("f1_pipeline", "C01"), "C04": ("f1_pipeline", "C04"), "C08": ("f1_pipeline", "C08"), "C10": ("f1_pipeline", "C10"),
-    "C13": ("f1_pipeline", "C13"), "C14": ("f1_pipeline", "C14"),
+    "C13": ("f1_pipeline", "C13"), "C14": ("f1_pipeline", "C14"), "C06": ("f1_pipeline", "C06"), "C18": ("f1_pipeline", "C18"),
 }
 
 
